@@ -164,7 +164,33 @@ func (c *Ctx) uniqueFuncBySig(rel, fallback, sig string) *ssa.Function {
 	if fs := c.funcsBySig(rel, sig); len(fs) == 1 {
 		return fs[0]
 	}
+	// moved to another library package of the module: unique by signature there
+	var all []*ssa.Function
+	for _, other := range c.libPkgRels() {
+		if other != rel {
+			all = append(all, c.funcsBySig(other, sig)...)
+		}
+	}
+	if len(all) == 1 {
+		return all[0]
+	}
 	return nil
+}
+
+// libPkgRels: the module's library packages (relative paths, sorted), commands excluded.
+func (c *Ctx) libPkgRels() []string {
+	var out []string
+	for path := range c.Pkgs {
+		switch {
+		case path == modPath:
+			out = append(out, "")
+		case strings.HasPrefix(path, modPath+"/cmd/"):
+		case strings.HasPrefix(path, modPath+"/"):
+			out = append(out, strings.TrimPrefix(path, modPath+"/"))
+		}
+	}
+	sort.Strings(out)
+	return out
 }
 
 // implementors returns the non-interface named types of module package rel
@@ -233,7 +259,33 @@ func (c *Ctx) transportSend() *ssa.Function {
 // truncatedHashType is the root-package struct that embeds hash.Hash next to
 // an integer length.
 func (c *Ctx) truncatedHashType() *types.Named {
-	tp := c.TPkg("")
+	if n := c.Named("", "truncatedHash"); n != nil {
+		return n
+	}
+	// by shape: in the root package first, then wherever in the module's library packages
+	// the type lives
+	if cands := c.truncatedHashCands(c.TPkg("")); len(cands) == 1 {
+		return cands[0]
+	}
+	var all []*types.Named
+	var paths []string
+	for path := range c.Pkgs {
+		paths = append(paths, path)
+	}
+	sort.Strings(paths)
+	for _, path := range paths {
+		if !(path == modPath || strings.HasPrefix(path, modPath+"/")) || strings.HasPrefix(path, modPath+"/cmd/") {
+			continue
+		}
+		all = append(all, c.truncatedHashCands(c.Pkgs[path].Types)...)
+	}
+	if len(all) == 1 {
+		return all[0]
+	}
+	return nil
+}
+
+func (c *Ctx) truncatedHashCands(tp *types.Package) []*types.Named {
 	if tp == nil {
 		return nil
 	}
@@ -267,7 +319,7 @@ func (c *Ctx) truncatedHashType() *types.Named {
 			cands = append(cands, nt)
 		}
 	}
-	return c.namedOr("", "truncatedHash", cands)
+	return cands
 }
 
 // keyMaterialType is the concrete implementation of AdditionalKeyMaterialGenerator.
@@ -331,19 +383,45 @@ func (ir *initReader) globalByType0(rel, fallback, typ string) (*GVal, *ssa.Glob
 	if v, g := ir.GlobalInit(rel, fallback); g != nil {
 		return v, g
 	}
-	p := ir.c.Pkg(rel)
-	if p == nil {
-		return nil, nil
-	}
-	var found *ssa.Global
-	for _, m := range p.Members {
-		if g, ok := m.(*ssa.Global); ok {
-			if pt, ok := g.Type().(*types.Pointer); ok && types.TypeString(pt.Elem(), nil) == typ {
-				if found != nil {
-					return nil, nil
+	byType := func(rel string) (found *ssa.Global, many bool) {
+		p := ir.c.Pkg(rel)
+		if p == nil {
+			return nil, false
+		}
+		var names []string
+		for n := range p.Members {
+			names = append(names, n)
+		}
+		sort.Strings(names)
+		for _, n := range names {
+			if g, ok := p.Members[n].(*ssa.Global); ok {
+				if pt, ok := g.Type().(*types.Pointer); ok && types.TypeString(pt.Elem(), nil) == typ {
+					if found != nil {
+						return nil, true
+					}
+					found = g
 				}
-				found = g
 			}
+		}
+		return found, false
+	}
+	found, many := byType(rel)
+	if found == nil && !many {
+		// the table moved to another library package of the module: unique by type there
+		n := 0
+		for _, other := range ir.c.libPkgRels() {
+			if other == rel {
+				continue
+			}
+			if g, m := byType(other); g != nil {
+				found = g
+				n++
+			} else if m {
+				n += 2
+			}
+		}
+		if n != 1 {
+			found = nil
 		}
 	}
 	if found == nil {
